@@ -27,8 +27,12 @@ READ_VALIDATES_PATH = {"kind": "sibling", "fn": r"^ohkami::request::Request::rea
 AUDIT = [
     # ---- Request::read
     {"fn": r"^ohkami::request::Request::read::\{closure#0\}$", "sink": r"^panic-call:(slice|array) index$|^assert:BoundsCheck$",
-     "guards": [{"kind": "operand", "which": "arg1", "from": {"call": r"Future>?::poll$", "payload": "Ok"}, "max_offset": 0, "dominated": False}],
-     "reason": "`buf[..n]` with n = the count returned by read(&mut buf), which is <= buf.len() by AsyncRead's contract"},
+     "guards": [{"kind": "operand", "which": "arg1", "from": {"call": r"Future>?::poll$", "payload": "Ok"}, "max_offset": 0, "dominated": False},
+                {"kind": "accumulated_read_count"}],
+     "reason": "`buf[..n]` / `buf[n..]` with n = the count returned by read(&mut buf), or the sum of the counts of reads into buf[n..]: <= buf.len() by AsyncRead's contract"},
+    {"fn": r"^ohkami::request::Request::read::\{closure#0\}$", "sink": r"^assert:Overflow\(Add\)$",
+     "guards": [{"kind": "accumulated_read_count"}],
+     "reason": "`received += n`: received + n <= buf.len() because n was read into buf[received..]"},
     {"fn": r"^ohkami::request::Request::read::\{closure#0\}::\{closure#\d+\}$", "sink": r"^assert:Overflow\(Sub\)$",
      "guards": [{"kind": "cmp", "op": "Ge", "const": 48}], "reason": "`*b - b'0'` under the `b'0'..=b'9'` arm"},
     # ---- read_payload
